@@ -36,7 +36,7 @@ def gen(rng, tier, shape=None):
         f["clean"] = ll is not None and rng.random() < 0.6       # formatter-clean under the project's black options
         f["bom"] = rng.random() < 0.12                           # the file starts with a UTF-8 byte order mark
     return {"files": files, "flags": flags, "outside": rng.random() < 0.3,      # outside: pytest is started from another directory
-            "line_length": ll, "orders": len(flags) >= 2 and (force_orders or rng.random() < 0.4)}     # orders: also approve the categories one at a time
+            "xfail_dir": rng.random() < 0.15, "line_length": ll, "orders": len(flags) >= 2 and (force_orders or rng.random() < 0.4)}     # orders: also approve the categories one at a time
 
 
 def file_src(f, idx):
@@ -66,23 +66,29 @@ def file_src(f, idx):
     return "\n".join(L)
 
 
+def fname(case, i):
+    # the last file may live in a directory whose name is a marker name (node keywords contain directory names)
+    d = "xfail/" if case.get("xfail_dir") and i == len(case["files"]) - 1 else ""
+    return f"{d}test_{chr(97 + i)}.py"
+
+
 def model_lines(case):
     return []
 
 
 def run_impl(case):
     from .. import impl_pytest
-    files = {f"test_{chr(97 + i)}.py": file_src(f, i) for i, f in enumerate(case["files"])}
+    files = {fname(case, i): file_src(f, i) for i, f in enumerate(case["files"])}
     ll = case.get("line_length")
     if ll:
         import black
         for i, f in enumerate(case["files"]):
             if f.get("clean"):
-                n = f"test_{chr(97 + i)}.py"
+                n = fname(case, i)
                 files[n] = black.format_str(files[n], mode=black.FileMode(line_length=ll))
     for i, f in enumerate(case["files"]):
         if f.get("bom"):
-            n = f"test_{chr(97 + i)}.py"
+            n = fname(case, i)
             files[n] = "\ufeff" + files[n]
     sub = "started_here" if case.get("outside") else None
     r = impl_pytest.run_session(files, ["--inline-snapshot=" + ",".join(case["flags"])], {}, pyproject=(f"[tool.black]\nline-length = {ll}\n" if ll else ""),
@@ -116,7 +122,7 @@ def run_impl(case):
                 cur.update(keep_store)
             seq[",".join(order)] = {"err": err, "files": {n: cur.get(n) for n in files}}
     internal = "INTERNALERROR" in r["stdout"]
-    return {"seq": seq, "second": second, "rc": r["rc"], "traceback": "Traceback" in r["stderr"] or "Error" in r["stderr"][-400:] or internal,
+    return {"setup_errors": r["stdout"].count("ERROR at setup of"), "seq": seq, "second": second, "rc": r["rc"], "traceback": "Traceback" in r["stderr"] or "Error" in r["stderr"][-400:] or internal,
             "stderr": (r["stdout"][-700:] if internal else r["stderr"][-500:]),
             "files": {n: {"old": files[n], "new": r["files"].get(n, b"").decode("utf-8", "replace")} for n in files}}
 
@@ -129,6 +135,10 @@ def oracle(case, obs):
     fails = []
     if obs["traceback"]:
         fails.append(("C18", "finish_total", f"flags {case['flags']}: {obs['stderr'][-300:]}"))
+    if obs.get("setup_errors"):
+        d = f"{obs['setup_errors']} tests failed in the set-up of inline-snapshot's fixture (files {sorted(obs['files'])})"
+        fails.append(("C07", "no_false_failure", d))
+        fails.append(("C18", "finish_total", d))
     if obs.get("seq"):
         def dump(t):
             try:
